@@ -90,6 +90,12 @@ def intList (value : List Char) : Py.R (List Int) := (splitOnChar ',' value).map
 
 def isSignDigit (c : Char) : Bool := c == '+' || c == '-' || isDigit c
 
+/-- `weekdays[k](n)` (`_common.weekday.__call__` / `__init__`, hand model): the weekday `k` with ordinal `n`; `n == 0` is a ValueError -/
+def weekdayCall (k : Option Int) (n : Option Int) : Py.R WDay :=
+  match k with
+  | none => .error .KeyError                       -- `self._weekday_map[w]`
+  | some k => if n == some 0 then .error .ValueError else .ok (k, n)
+
 /-- one BYDAY item: `TH(+1)` or `+1TH` / `TH`; errors are KeyError/ValueError (both → ValueError upstream) -/
 def parseWDay (wday : List Char) : Py.R WDay :=
   if wday.contains '(' then
@@ -419,6 +425,15 @@ def wdName (k : Int) : List Char := ((weekdayMap.find? (·.2 == k)).map (·.1)).
 def showDT (t : Nat × Nat × Nat × Nat × Nat × Nat) : List Char :=
   let (y, m, d, hh, mm, ss) := t
   pad 4 y ++ pad 2 m ++ pad 2 d ++ ['T'] ++ pad 2 hh ++ pad 2 mm ++ pad 2 ss
+
+/-- a field of the `(year, month, day, hour, minute, second)` of a datetime, by position -/
+def sixGet (t : Nat × Nat × Nat × Nat × Nat × Nat) : Nat → Nat
+  | 0 => t.1 | 1 => t.2.1 | 2 => t.2.2.1 | 3 => t.2.2.2.1 | 4 => t.2.2.2.2.1 | _ => t.2.2.2.2.2
+
+/-- `_common.weekday.__repr__`: `("MO", …, "SU")[self.weekday]`, followed by `(%+d)` when `n` is truthy (hand model; used by the
+    source translation of `rrule.__str__`, `Gen.rruleStr`) -/
+def weekdayRepr (w : WDay) : List Char :=
+  wdName w.1 ++ (match w.2 with | some n => if n != 0 then '(' :: showIntSigned n ++ [')'] else [] | none => [])
 
 /-- `repr(weekday)`: `MO` or `MO(+1)`; in `__str__`: `+1MO` when n is truthy -/
 def showWDayStr (w : WDay) : List Char :=
